@@ -246,3 +246,28 @@ def cmp_forms(c):
 def real(body):
     """Statements of a body without no-ops (pass, bare string/constant expressions)."""
     return [s for s in body if not isinstance(s, ast.Pass) and not (isinstance(s, ast.Expr) and isinstance(s.value, ast.Constant))]
+
+
+def expand(f, expr, depth=6):
+    """Inline uniquely-defined local names inside `expr` (a.b where a = x.y  ->  x.y.b).  Returns a new AST; names that
+    are parameters, captured or multiply defined stay as they are."""
+    import copy
+
+    class Sub(ast.NodeTransformer):
+        def __init__(self, d):
+            self.d = d
+
+        def visit_Name(self, n):
+            if not isinstance(n.ctx, ast.Load) or self.d <= 0:
+                return n
+            g, dd = unique_def(f, n.id)
+            if g is not f or dd is None or isinstance(dd, tuple):
+                return n
+            return Sub(self.d - 1).visit(copy.deepcopy(dd))
+
+        def visit_Lambda(self, n):
+            return n
+
+    if not isinstance(expr, ast.AST):
+        return expr
+    return Sub(depth).visit(copy.deepcopy(expr))
